@@ -7,6 +7,7 @@
 #include <string>
 #include <limits>
 #include <cmath>
+#include <cfloat>
 #include <stdexcept>
 #include <climits>
 #include <sstream>
@@ -188,15 +189,34 @@ inline z3::expr exp_term(const Float &e) {     // uninterpreted positive functio
 }
 inline bool cmp(const Float &a, const Float &b, int op) {
     if (a.kind == Float::CONC && b.kind == Float::CONC) { switch (op) { case 0: return a.v < b.v; case 1: return a.v <= b.v; case 2: return a.v > b.v; default: return a.v >= b.v; } }
-    if (a.inf()) return a.v < 0 ? (op == 0 || op == 1) : (op == 2 || op == 3);
-    if (b.inf()) return b.v < 0 ? (op == 2 || op == 3) : (op == 0 || op == 1);
+    // +-inf and +-FLT_MAX (numeric_limits<float>::lowest()/max()) bound every symbolic score: inputs are finite float32 values strictly inside the range
+    auto huge = [](const Float &f) { return f.kind == Float::CONC && (std::isinf(f.v) || std::fabs(f.v) >= (double)FLT_MAX); };
+    if (huge(a)) return a.v < 0 ? (op == 0 || op == 1) : (op == 2 || op == 3);
+    if (huge(b)) return b.v < 0 ? (op == 2 || op == 3) : (op == 0 || op == 1);
     std::string text = a.text() + " " + opname(op) + " " + b.text();
+    if ((a.kind == Float::EXP && b.kind == Float::CONC) || (a.kind == Float::CONC && b.kind == Float::EXP)) {
+        // c*e^x against a constant: exact.  A non-positive constant is below every non-zero float32 value of e^x (and equal to an underflowed one
+        // only if it is 0); a positive constant v is v*e^0, handled by the exp/exp case below
+        const Float &cst = a.kind == Float::CONC ? a : b;
+        if (cst.v > 0) {
+            Float c2; c2.kind = Float::EXP; c2.v = cst.v; c2.l = Lin();
+            return a.kind == Float::CONC ? cmp(c2, b, op) : cmp(a, c2, op);
+        }
+        const Float &e = a.kind == Float::EXP ? a : b;
+        bool exp_is_left = a.kind == Float::EXP;
+        if (cst.v < 0) return exp_is_left ? (op == 2 || op == 3) : (op == 0 || op == 1);
+        Lin t = e.l; t.k += std::log(e.v) - (-103.972);
+        bool zero = t.is_const() ? t.k < 0 : E.decide(lt0(t), "underflow(" + e.text() + ")");
+        if (zero) return op == 1 || op == 3;                                         // 0 op 0
+        return exp_is_left ? (op == 2 || op == 3) : (op == 0 || op == 1);            // positive op 0 / 0 op positive
+    }
     if (a.kind == Float::EXP && b.kind == Float::EXP) {
         // float32 semantics of expf and of the product with beta: the value is exactly 0 when ln(value) < ln(2^-150) = -103.972
         // (below half the smallest denormal); otherwise  ca*e^x op cb*e^y  <=>  x - y op ln(cb/ca)  (denormal precision is ignored)
         const double UF = -103.972;
         auto is_zero = [&](const Float &e) {
             Lin t = e.l; t.k += std::log(e.v) - UF;           // ln(value) - UF < 0
+            if (t.is_const()) return t.k < 0;
             return E.decide(lt0(t), "underflow(" + e.text() + ")");
         };
         bool za = is_zero(a), zb = is_zero(b);
@@ -204,6 +224,7 @@ inline bool cmp(const Float &a, const Float &b, int op) {
         if (za) return op == 0 || op == 1;                    // 0 op positive
         if (zb) return op == 2 || op == 3;                    // positive op 0
         Lin d = a.l - b.l; d.k -= std::log(b.v / a.v);
+        if (d.is_const()) { switch (op) { case 0: return d.k < 0; case 1: return d.k <= 0; case 2: return d.k > 0; default: return d.k >= 0; } }
         return E.decide(rel_lin(d, op), text);
     }
     if (a.kind == Float::EXP || b.kind == Float::EXP) {
@@ -222,7 +243,14 @@ inline bool operator>=(const Float &a, const Float &b) { return cmp(a, b, 3); }
 }  // namespace sym
 
 namespace std {
-template <> struct numeric_limits<sym::Float> { static sym::Float lowest() { return sym::Float(-INFINITY); } };
+template <> struct numeric_limits<sym::Float> {       // the float32 constants of the real type
+    static constexpr bool is_specialized = true, has_infinity = true;
+    static sym::Float lowest() { return sym::Float(-(double)FLT_MAX); }
+    static sym::Float max() { return sym::Float((double)FLT_MAX); }
+    static sym::Float min() { return sym::Float((double)FLT_MIN); }
+    static sym::Float epsilon() { return sym::Float((double)FLT_EPSILON); }
+    static sym::Float infinity() { return sym::Float(INFINITY); }
+};
 inline sym::Float log(const sym::Float &a) { if (a.kind != sym::Float::CONC) throw sym::Abort{3}; return sym::Float(std::log(a.v)); }
 inline sym::Float exp(const sym::Float &a) {
     if (a.kind == sym::Float::CONC) return sym::Float(std::exp(a.v));
